@@ -85,6 +85,9 @@ CHECKS = {
  "C31": dict(cat="model_checking", tech="TLA+ trace validation (TLC, Trace_Interp Anon): isomorphism of the two change graphs through recursive change signatures (bag equality) and actor partitions, shape equality at the current heads and at every change, reload",
    text="Histories with text, marks, counters, conflicts and nested objects on 2-3 replicas, every replica anonymized.", ref="§5a",
    note="assumes: the canonical shape string (object types, key counts, sequence order/lengths, text widths, conflict multiplicities) is computed by the harness projection (world.rs shape_at); shapes are compared at the current heads and at every single-change head set, not at every antichain; mark values are not part of the shape"),
+ "C33": dict(cat="exploration", tech="JsonGen.tla enumerates the JSON values (generator + identity contract Export(Load(Save(Import(v)))) = v); each value is piped through the real CLI binary built from /repo and compared, including number kinds; outcomes validated by Trace_Wire Cli",
+   text="728 JSON objects over all scalar tokens x key tokens x nesting shapes (quick: every second one).", ref="§5a",
+   note="assumes: the value grammar of JsonGen.tla (depth <= 3, 13 number tokens, 7 string tokens, 4 key tokens) is representative; serde_json with default features parses the comparison side"),
 }
 
 NA_REASON = "check not built yet in this session (framework under construction; see DESIGN.md §10 build order)"
@@ -99,7 +102,7 @@ def main():
         pass
     m = {
       "version": 1,
-      "setup_cmd": "cd /verif/harness && CARGO_NET_OFFLINE=true cargo build --offline --bins",
+      "setup_cmd": "cd /verif/harness && CARGO_NET_OFFLINE=true cargo build --offline --bins && cd /repo/rust && CARGO_NET_OFFLINE=true cargo build --offline -p automerge-cli --target-dir /verif/harness/target-cli",
       "hooks": {
         "guard": "automerge_verif",
         "enable": "rustc --cfg automerge_verif, set through /verif/harness/.cargo/config.toml [build] rustflags",
